@@ -941,6 +941,9 @@ func init() {
 				r.Traces.Add(1)
 				ok, sig, detail := c01Eval(c)
 				r.Distinct.Add(mustJSON(c))
+				if n := r.Evals.Load(); (n == 1 || n%7919 == 0) && r.WantSample() {
+					r.Sample(c)
+				}
 				if !ok {
 					r.Fail(engine.Failure{Sig: sig, Case: c, Detail: detail, Size: size})
 				}
